@@ -93,6 +93,8 @@ func (a *Activation) callContract(ins *ssa.Call, g *ssa.Function, spec *FuncSpec
 	for i, p := range g.Params {
 		env.vars[p.Name()] = args[i]
 	}
+	a.curSt = st
+	progVars := a.varsAtUpto(ins.Block(), true, nil, ins)
 	argLookup := func(n string) (Val, bool) {
 		if strings.HasPrefix(n, "arg") {
 			var k int
@@ -100,7 +102,7 @@ func (a *Activation) callContract(ins *ssa.Call, g *ssa.Function, spec *FuncSpec
 				return args[k], true
 			}
 		}
-		return Val{}, false
+		return progVars(n)
 	}
 	if a.depth == 0 {
 		a.ghostAt("before "+site, st, *rc, nil, argLookup)
@@ -200,13 +202,7 @@ func (a *Activation) callContract(ins *ssa.Call, g *ssa.Function, spec *FuncSpec
 			if v, ok := ghostRes[n]; ok {
 				return v, true
 			}
-			if strings.HasPrefix(n, "arg") {
-				var k int
-				if _, err := fmt.Sscanf(n, "arg%d", &k); err == nil && k >= 0 && k < len(args) {
-					return args[k], true
-				}
-			}
-			return Val{}, false
+			return argLookup(n)
 		})
 	}
 	switch len(rs) {
